@@ -170,3 +170,76 @@ def run(ctx: common.Ctx):
     recs = tables.pmap(worker, [(ctx.seed * 100003 + k, ctx.tier) for k in range(n)], chunk=4)
     from .c01 import report
     report(ctx, recs, "C07")
+    wrapped_function_soundness(ctx)
+
+
+def wrapped_function_soundness(ctx):
+    """Values reported by `eager_propagate`-wrapped user functions on data (incl. functions that update an argument in
+    place, idempotently or not) must be what the same function yields on placeholders through the exported model, and
+    the export of the folded result must contain constants only."""
+    import numpy as np
+    from .. import impl
+    from ndonnx._propagation import eager_propagate
+    ndx = impl.ndx
+
+    def f_acc(a, b):
+        a += b
+        return a * 1
+
+    def f_scale(a, b):
+        a[:2] = a[:2] * 3
+        return a + b
+
+    def f_nested(d, b):
+        d["acc"] *= b
+        return d["acc"] - 1
+
+    def f_pure(a, b):
+        return a * b + 1
+
+    def f_idem(a, b):
+        a[0] = 7
+        return a + b
+
+    cases = [("accumulate", f_acc, False), ("scale-prefix", f_scale, False), ("nested-dict", f_nested, True),
+             ("pure", f_pure, False), ("idempotent", f_idem, False)]
+    for dt in ("int64", "float64", "nint32", "float32"):
+        npd = impl.np_dtype(dt)
+        av = np.array([1, 2, 3], dtype=npd)
+        bv = np.array([10, 20, 30], dtype=npd)
+        if impl.is_nullable(dt):
+            av = np.ma.masked_array(av, mask=[False, True, False])
+            bv = np.ma.masked_array(bv, mask=[False, False, False])
+        for name, fn, nested in cases:
+            ident = ("wrapped", name, dt)
+            ctx.case(ident, True, {"function": name, "dtype": dt} if len(ctx.samples) < 12 else None)
+            ctx.count("wrapped-function")
+            wrapped = eager_propagate(fn)
+            try:
+                # truth: the plain function traced on placeholders, run through the exported model
+                pa, pb = ndx.array(shape=(3,), dtype=impl.dt(dt)), ndx.array(shape=(3,), dtype=impl.dt(dt))
+                arg = {"acc": pa} if nested else pa
+                lazy = fn(arg, pb)
+                inputs = {"a": pa, "b": pb}
+                feeds = {**impl.feed("a", av, dt), **impl.feed("b", bv, dt)}
+                truth = impl.run_model(ndx.build(inputs, {"o": lazy}), feeds, {"o": lazy})["o"]
+                ea, eb = ndx.asarray(av.copy()), ndx.asarray(bv.copy())
+                earg = {"acc": ea} if nested else ea
+                out = wrapped(earg, eb)
+                rep = out.to_numpy()
+            except Exception as e:
+                ctx.count("wrapped-function-skipped:" + type(e).__name__)
+                continue
+            if rep is None:
+                ctx.violation(f"eager_propagate-wrapped/{name}/no-value-although-inputs-hold-data",
+                              f"{name}({dt}): all arguments hold data but the result reports no value", {"function": name, "dtype": dt})
+                continue
+            if not (impl.canon(rep)[1:] == impl.canon(truth)[1:]):
+                ctx.violation(f"eager_propagate-wrapped/{name}/reported-value-unsound",
+                              f"{name}({dt}): reported {impl.canon(rep)} but the function traced on placeholders computes {impl.canon(truth)}",
+                              {"function": name, "dtype": dt, "reported": str(impl.canon(rep)), "model": str(impl.canon(truth))})
+            m = ndx.build({}, {"o": out})
+            ops = sorted({n.op_type for n in m.graph.node} - {"Constant", "Identity"})
+            if ops:
+                ctx.violation(f"eager_propagate-wrapped/{name}/folded-export-has-compute-nodes",
+                              f"{name}({dt}): export of the folded result contains {ops}", {"function": name, "dtype": dt, "ops": ops})
